@@ -75,6 +75,8 @@ NSTAT = 4096
 HB = 256          # HB*HB >= 16*NSTAT
 TOL = 4
 NPW = 16          # keys logged pointwise per scenario
+NSTAT2 = 2 ** 18  # keys of the statistical fallback of C25.unbiased (HB2 = 2048, HB2^2 >= 16*NSTAT2)
+HB2 = 2048
 
 
 # ----------------------------------------------------------------------------
@@ -469,7 +471,20 @@ def run_marg(b: Builder, sc, seed):
                 est = [list(c) + [int(e256[k].min()), int(e256[k].max())] for k, c in enumerate(scells)]
             except Exception as ex:
                 eststatus = _status(ex)
-        events.append(dict(base, retok=retok, consistent=consistent, eststatus=eststatus, est=est,
+        # weights that are NOT a function of the full sample (a legitimate but randomised weight): no exact
+        # table exists; log the Hoeffding statistic sum_keys 2^-w 1[S=s] from NSTAT2 keys instead
+        stat, n2 = [], 0
+        if retok and any(c[2] - c[1] > TOL for c in cells.values()):
+            n2 = NSTAT2
+            w2, v2 = jax.jit(jax.vmap(f))(jax.random.split(jax.random.key(seed + 2), n2))
+            inv8 = np.minimum(np.rint(np.exp(-np.asarray(w2, dtype=np.float64)) * 256.0), 2 ** 15).astype(np.int64)
+            agg = {}
+            for row, x in zip(map(tuple, np.asarray(v2).tolist()), inv8.tolist()):
+                c = agg.setdefault(row, [0, 0])
+                c[0] += 1
+                c[1] += x
+            stat = [list(k) + [v[0], min(v[1], 2 ** 30)] for k, v in sorted(agg.items())]
+        events.append(dict(base, retok=retok, consistent=consistent, eststatus=eststatus, est=est, stat=stat, N2=n2,
                            cells=[list(k) + v for k, v in sorted(cells.items())]))
     # with an inference algorithm whose target constrains the selected addresses (placeholder values 0)
     if sc.get("algs") and selidx:
@@ -575,8 +590,9 @@ def run_mh(b: Builder, sc, seed):
     cards = [len(s["t"][0]) for s in sites]
     starts = np.array(list(itertools.product(*[range(c) for c in cards])), dtype=np.int32)
     keys = jax.random.split(jax.random.key(seed), NMH)
-    events = []
-    argd = Diff.no_change(args)
+    m2 = b.models[sc.get("model2", sc["model"])]
+    # the same edit may also change the model's arguments (model2 = same family, other argument)
+    argd = Diff.no_change(args) if m2["name"] == m["name"] else Diff.unknown_change(b.args(m2))
 
     def f(row, key):
         k1, k2 = jax.random.split(key)
@@ -584,35 +600,105 @@ def run_mh(b: Builder, sc, seed):
         out = []
         for _, req in variants:
             new_tr, w, _, _ = req.edit(k2, tr, argd)
-            out.append((w, b.project(m, new_tr.get_choices())))
+            a2 = jnp.asarray(new_tr.get_args()[0], dtype=jnp.int32) if m["nargs"] else jnp.int32(-1)
+            out.append((w, b.project(m, new_tr.get_choices()), new_tr.get_score(), a2))
         return out
 
-    base = dict(op="rejuv", model=sc["model"], at=at, dep=dep, mh=kind, status="ok", cells=[])
+    base = dict(op="rejuv", model=sc["model"], model2=m2["name"], at=at, dep=dep, mh=kind, vec=0, arg2=-1,
+                status="ok", cells=[])
     try:
         res = jax.jit(jax.vmap(lambda row: jax.vmap(lambda k: f(row, k))(keys)))(jnp.asarray(starts))
     except Exception as e:
         return [dict(base, variant=v, status=_status(e), msg=str(e)[:300]) for v, _ in variants]
-    for (vname, _), (w, d) in zip(variants, res):
-        w256 = _fx(np.asarray(w))
-        d = np.asarray(d)
-        cells = {}
-        for si in range(len(starts)):
-            st = tuple(starts[si].tolist())
-            for ki in range(NMH):
-                k = st + tuple(d[si, ki].tolist())
-                a = int(w256[si, ki])
-                c = cells.get(k)
-                if c is None:
-                    cells[k] = [a, a, 1]
-                else:
-                    c[0] = min(c[0], a)
-                    c[1] = max(c[1], a)
-                    c[2] += 1
-        events.append(dict(base, variant=vname, cells=[list(k) + v for k, v in sorted(cells.items())]))
-    return events
+    return [_rejuv_event(dict(base, variant=vname), starts, r, NMH) for (vname, _), r in zip(variants, res)]
 
 
-RUNNERS = {"smc": run_smc, "change": run_change, "marg": run_marg, "mh": run_mh}
+def _rejuv_event(base, starts, res, nkeys):
+    """Aggregate (w, new choices, score, arg) over keys into cells c + d + [wmin, wmax, n, smin, smax]."""
+    import numpy as np
+    w, d, sc_, a2 = (np.asarray(x) for x in res)
+    if w.shape != (len(starts), nkeys):
+        return dict(base, status="weight_not_scalar:shape" + "x".join(map(str, w.shape[2:])))
+    w256, s256 = _fx(w), _fx(sc_)
+    arg2 = sorted(set(a2.reshape(-1).tolist()))
+    cells = {}
+    for si in range(len(starts)):
+        st = tuple(starts[si].tolist())
+        for ki in range(nkeys):
+            k = st + tuple(d[si, ki].tolist())
+            a, sv = int(w256[si, ki]), int(s256[si, ki])
+            c = cells.get(k)
+            if c is None:
+                cells[k] = [a, a, 1, sv, sv]
+            else:
+                c[0] = min(c[0], a)
+                c[1] = max(c[1], a)
+                c[2] += 1
+                c[3] = min(c[3], sv)
+                c[4] = max(c[4], sv)
+    return dict(base, arg2=(arg2[0] if len(arg2) == 1 else -2), cells=[list(k) + v for k, v in sorted(cells.items())])
+
+
+NMHV = 512
+
+
+def run_mhvec(b: Builder, sc, seed):
+    """Array-valued choice x ~ categorical(2x3 probs) @ "x" rejuvenated with a DISTRIBUTION OBJECT as proposal."""
+    import itertools
+
+    import genjax
+    import jax
+    import numpy as np
+    from genjax import ChoiceMapBuilder as C
+    from genjax._src.generative_functions.static import StaticRequest
+    from genjax.inference.requests import Rejuvenate
+    jnp = b.jnp
+    m = {x["name"]: x for x in b.cat["vmodels"]}[sc["model"]]
+    sites = m["sites"]
+    vec = [i for i, s in enumerate(sites) if s["kind"] == "vec"]
+    assert vec == [0, 1] and len(sites) == 3
+    px = jnp.asarray(np.array([[2.0 ** -e for e in sites[i]["t"][0]] for i in vec], dtype=np.float32))
+    ty = jnp.asarray(np.array([[2.0 ** -e for e in row] for row in sites[2]["t"]], dtype=np.float32))
+
+    @genjax.gen
+    def model():
+        x = genjax.categorical(probs=px) @ "x"
+        _ = genjax.categorical(probs=ty[x[sites[2]["pa"] - 1]]) @ "y"
+        return x
+
+    lrw = jnp.asarray(np.array(b.cat["rwt"], dtype=np.float32) * np.float32(-LN2))
+    lct = jnp.asarray(np.array(b.cat["ctt"], dtype=np.float32) * np.float32(-LN2))
+    i32 = lambda v: jnp.asarray(v, dtype=jnp.int32)
+    if sc["mh"] == "rw":      # harness table distribution, element-wise log density (not summed by the harness)
+        dist = genjax.exact_density(
+            lambda key, cur: (i32(cur) + jax.random.categorical(key, lrw, shape=(2,))) % 3,
+            lambda v, cur: lrw[(i32(v) - i32(cur)) % 3], "rwvec")
+        amap = lambda ch: (ch.get_value(),)
+    else:                     # TFP distribution with batch shape (2,)
+        dist = genjax.categorical
+        amap = lambda ch: (jnp.stack([lct, lct]),)
+    req = StaticRequest({"x": Rejuvenate(dist, amap)})
+    starts = np.array(list(itertools.product(range(3), range(3), range(len(sites[2]["t"][0])))), dtype=np.int32)
+    keys = jax.random.split(jax.random.key(seed), NMHV)
+
+    def f(row, key):
+        k1, k2 = jax.random.split(key)
+        tr, _ = model.importance(k1, C["x"].set(row[:2]) | C["y"].set(row[2]), ())
+        new_tr, w, _, _ = req.edit(k2, tr, ())
+        ch = new_tr.get_choices()
+        d = jnp.concatenate([i32(ch["x"]), i32(ch["y"])[None]])
+        return w, d, new_tr.get_score(), jnp.int32(-1)
+
+    base = dict(op="rejuv", model=sc["model"], model2=sc["model"], at=0, dep=0, mh=sc["mh"], vec=1, arg2=-1,
+                variant="static-dist", status="ok", cells=[])
+    try:
+        res = jax.jit(jax.vmap(lambda row: jax.vmap(lambda k: f(row, k))(keys)))(jnp.asarray(starts))
+    except Exception as e:
+        return [dict(base, status=_status(e), msg=str(e)[:300])]
+    return [_rejuv_event(base, starts, res, NMHV)]
+
+
+RUNNERS = {"smc": run_smc, "change": run_change, "marg": run_marg, "mh": run_mh, "mhv": run_mhvec}
 
 
 def _work(payload):
@@ -646,7 +732,7 @@ ROLE_A = {
     "C26": (["smc", "change"], ["TablesNormalized", "SamplerNormalized", "WeightIsRatio", "EvidenceUnbiased",
                                 "EvidenceUnbiasedK", "PAlgIsDistribution", "PAlgK1IsProposal", "DensitySampler",
                                 "DensityEstimator", "PAlgApproachesPosterior", "ChangeProper", "ChangeGrowMass", "ChangeParticle"]),
-    "C27": (["mh"], ["TablesNormalized", "MHAntisymmetric", "MHDetailedBalance", "MHStationary", "MHOldArgsDiffers"]),
+    "C27": (["mh"], ["TablesNormalized", "MHAntisymmetric", "MHDetailedBalance", "MHStationary", "MHOldArgsDiffers", "MHArgsAntisymmetric", "MHVecLaws"]),
 }
 
 
@@ -679,12 +765,16 @@ def _select(prop_id, cases, tier, seed):
         if tier == "thorough":
             return cs
         rng.shuffle(cs)
+        vecs = [c for c in cs if c["kind"] == "mhv"]
+        argc = [c for c in cs if c["kind"] == "mh" and c["model2"] != c["model"]]
+        cs = [c for c in cs if c["kind"] == "mh" and c["model2"] == c["model"]]
         seen, pick, rest = set(), [], []
         for c in cs:                      # every model with rw; every proposal kind on nested / 3-site programs
             k = (c["model"], c["mh"] == "rw")
             (pick if k not in seen else rest).append(c)
             seen.add(k)
-        return pick + rest[: max(0, 24 - len(pick))]
+        # + both array-valued scenarios + 3 argument-changing edits (both directions by seed)
+        return (pick + rest[: max(0, 20 - len(pick))]) + vecs + argc[:3]
     smc = [dict(c) for c in cases if c["kind"] == "smc"]
     chg = [dict(c) for c in cases if c["kind"] == "change"]
     rng.shuffle(smc)
@@ -724,7 +814,7 @@ def _select(prop_id, cases, tier, seed):
 
 def _sig(prop_id, ev, fl):
     s = {"clause": fl["clause"], "diag": fl["diag"], "op": ev.get("op")}
-    for k in ("model", "prop", "propkind", "alg", "selkind", "mh", "variant"):
+    for k in ("model", "model2", "prop", "propkind", "alg", "selkind", "mh", "variant"):
         if k in ev:
             s[k] = ev[k]
     return s
@@ -821,7 +911,7 @@ def run(prop_id, tier, seed, replay=None):
     if judged:
         cfgT = os.path.join(wd, "Trace.cfg")
         with open(cfgT, "w") as f:
-            f.write(f"CONSTANTS Emit = FALSE\n Kinds = {{}}\n TOL = {TOL}\n HB = {HB}\n"
+            f.write(f"CONSTANTS Emit = FALSE\n Kinds = {{}}\n TOL = {TOL}\n HB = {HB}\n HB2 = {HB2}\n"
                     "SPECIFICATION TSpec\nCHECK_DEADLOCK FALSE\n")
         resT = vlib.run_tlc("InferenceTrace", cfgT, wd, tag="trace", workers=1, timeout=2400,
                             env={"TRACE_FILE": trace}, jvm=["-Xmx4g", "-Xss64m"])
@@ -875,9 +965,9 @@ def run(prop_id, tier, seed, replay=None):
             if any(x < 0 for x in e["o"]):
                 rep.nontrivial.add((e["op"], e["model"], tuple(int(x >= 0) for x in e["o"]), e["prop"], e.get("alg")))
         else:
-            n = (len(e["cells"][0]) - 3) // 2 if e.get("cells") else 0
+            n = (len(e["cells"][0]) - 5) // 2 if e.get("cells") else 0
             if any(c[:n] != c[n:2 * n] for c in e.get("cells", [])):
-                rep.nontrivial.add((e["model"], e["at"], e["mh"], e["variant"]))
+                rep.nontrivial.add((e["model"], e.get("model2"), e["at"], e["mh"], e["variant"]))
     step = max(1, len(events) // 4)
     for e in events[::step]:
         rep.sample({k: (v if k != "cells" else v[:3]) for k, v in e.items() if k != "msg"})
@@ -908,6 +998,6 @@ def _cost(sc):
         return 5 * len(sc.get("algs", [1])) + (3 if sc.get("csmc") else 0)
     if k == "marg":
         return 4 + 4 * len(sc.get("algs", []))
-    if k == "mh":
+    if k in ("mh", "mhv"):
         return 5
     return 4
